@@ -91,6 +91,7 @@ func runDecode(cfg *Cfg) {
 var deepTargets int
 
 func deepAndBig(out *Out, t *Target, r *vschema.Rand, tier string) {
+	smallLimitWalks(out, t, r, tier)
 	// a cycle of singular / repeated / oneof message fields from the root back to the root
 	path := nestPath(t.S)
 	if len(path) > 0 {
@@ -209,6 +210,89 @@ func deepAndBig(out *Out, t *Target, r *vschema.Rand, tier string) {
 
 // nestPath: field indexes (into successive messages) of a cycle of message-typed singular / repeated /
 // oneof fields leading from message 0 back to message 0; nil when the root cannot nest in itself.
+// smallLimitWalks: every walk of message-typed edges from the root (singular, list element, oneof member
+// and MAP VALUE edges, mixed) up to a length bound, decoded under every small explicit RecursionLimit:
+// accept/reject must agree with the reference (which counts one level per message, map entries do not
+// count). Mixed walks under small limits reach every "k levels of budget left at a message of shape X"
+// state that a deep input under the default limit would need thousands of levels to reach.
+func smallLimitWalks(out *Out, t *Target, r *vschema.Rand, tier string) {
+	maxLen, maxWalks := 5, 1500
+	if tier == "thorough" {
+		maxLen, maxWalks = 8, 40000
+	}
+	type edge struct{ j, to int }
+	edges := map[int][]edge{}
+	for mi := range t.S.Msgs {
+		for j, f := range t.S.Msgs[mi].Fields {
+			if f.IsMsg && f.Extern == "" {
+				edges[mi] = append(edges[mi], edge{j, f.Msg})
+			}
+		}
+	}
+	if len(edges[0]) == 0 {
+		return
+	}
+	var walks [][]int // field indexes along the walk
+	var rec func(mi int, cur []int)
+	rec = func(mi int, cur []int) {
+		if len(cur) > 0 {
+			walks = append(walks, append([]int(nil), cur...))
+		}
+		if len(cur) == maxLen || len(walks) > 4*maxWalks {
+			return
+		}
+		for _, e := range edges[mi] {
+			rec(e.to, append(cur, e.j))
+		}
+	}
+	rec(0, nil)
+	if len(walks) > maxWalks {
+		// keep the mixed-shape walks first (those with at least one map edge and one non-map edge), then sample
+		r.Shuffle(len(walks), func(a, b int) { walks[a], walks[b] = walks[b], walks[a] })
+		walks = walks[:maxWalks]
+	}
+	for _, w := range walks {
+		// inside-out
+		mis := []int{0}
+		for _, j := range w {
+			mis = append(mis, t.S.Msgs[mis[len(mis)-1]].Fields[j].Msg)
+		}
+		var inner []byte
+		hasMap := false
+		for k := len(w) - 1; k >= 0; k-- {
+			f := t.S.Msgs[mis[k]].Fields[w[k]]
+			if f.Shape == vschema.Map {
+				hasMap = true
+				e := protowire.AppendTag(nil, 2, protowire.BytesType)
+				e = protowire.AppendBytes(e, inner)
+				inner = e
+			}
+			b := protowire.AppendTag(nil, protowire.Number(f.Num), protowire.BytesType)
+			inner = protowire.AppendBytes(b, inner)
+		}
+		for limit := 1; limit <= len(w)+2; limit++ {
+			msg := t.B.ToMessage(0, vval.Empty(t.S, 0))
+			var err error
+			p, pm := guard(func() { err = proto.UnmarshalOptions{RecursionLimit: limit}.Unmarshal(inner, msg) })
+			replay := fmt.Sprintf("%s\nwalk %s fields %v RecursionLimit=%d input x%x", t.S.Line(), t.Full, w, limit, inner)
+			out.Case(fmt.Sprintf("walk:%s:%v:%d", t.Full, w, limit), true)
+			if p {
+				out.Violate("C06", "walk-panic", "panic on nested input under a small recursion limit: "+firstLine(pm), replay)
+				continue
+			}
+			dyn := dynamicpb.NewMessage(t.Desc)
+			refErr := proto.UnmarshalOptions{RecursionLimit: limit}.Unmarshal(inner, dyn)
+			if (err == nil) != (refErr == nil) {
+				out.Violate("C06", "depth-limit-walk", fmt.Sprintf("%d nested messages (map edge: %v) under RecursionLimit %d: generated code err=%v, reference err=%v", len(w), hasMap, limit, err, refErr), replay)
+			}
+			out.Count("limit_walk_cases")
+			if hasMap {
+				out.Count("limit_walk_cases_with_map_edge")
+			}
+		}
+	}
+}
+
 func nestPath(s *vschema.Schema) []int {
 	type st struct {
 		msg  int
@@ -334,7 +418,9 @@ func decodeCase(out *Out, t *Target, g *vval.StreamGen, bs []byte, into *vval.Va
 	input := append([]byte(nil), bs...)
 	var err error
 	start := time.Now()
+	out.Watch("C06", "unmarshal-hang", "proto.Unmarshal", replay("dec"), 30*time.Second)
 	p, pm := guard(func() { err = proto.UnmarshalOptions{Merge: merge, DiscardUnknown: discard}.Unmarshal(input, msg) })
+	out.Unwatch()
 	if d := time.Since(start); d > 2*time.Second {
 		out.Violate("C06", "slow", fmt.Sprintf("Unmarshal of %d bytes took %v", len(bs), d), replay("dec"))
 	}
